@@ -108,10 +108,10 @@ CHECKS.update({
 
 CHECKS.update({
  "C02": dict(level="model_checking", ref="DESIGN.md 7 C02",
-   text="SockPipe.tla: the socket -> TcpSession -> TCB (abstract ordered pipe, C01) -> SocketSession -> Socket::recv pipeline with re-chunking, accept backlog and the stored remainder, "
+   text="SockPipe.tla: the socket -> TcpSession -> TCB (abstract ordered pipe, C01) -> SocketSession -> Socket::recv pipeline with re-chunking, the accept backlog handed over in the code's two critical sections (atomic on the current_thread runtime, with deliveries in between on a multi_thread one) and the stored remainder, "
         "all interleavings (stream = concatenation of writes in order, recv(n) <= n, nothing dropped, complete); the as-found variants (task per write, recv budget, queue overflow) are "
-        "refuted by TLC and were reproduced on the code (F2, F3 repaired; K1 recorded). Real socket applications over the complete stack with jitter / bounded loss / duplicates on the "
-        "current_thread runtime (virtual time) and on multi_thread runtimes with 2-16 workers, byte-budget and whole-message reads mixed on one socket, writes before accept, servers that speak first on the accepted connection, every read on either side validated by TraceSock.tla.",
+        "refuted by TLC and were reproduced on the code (F2, F3, F25 repaired; K1 recorded). Real socket applications over the complete stack with jitter / bounded loss / duplicates on the "
+        "current_thread runtime (virtual time) and on multi_thread runtimes with 2-16 workers, byte-budget and whole-message reads mixed on one socket, writes before accept, servers that speak first on the accepted connection, every read on either side validated by TraceSock.tla; accept() on the real SocketAPI against a thread that delivers meanwhile (sockrace-drive).",
    note=NET_NOTE + " Known finding K1 (255-slot socket queue drops stream bytes) is reported as KNOWN-FINDING.",
    technique="TLA+ model checking (TLC) + trace validation of real socket executions on both runtime flavours"),
 })
